@@ -554,6 +554,10 @@ func GenRounds(rnd *rand.Rand, persist bool) RHist {
 	}
 	maxLen := 1 + rnd.Intn(3)
 	longKeys := rnd.Intn(6) == 0
+	keyLen := 64
+	if longKeys && rnd.Intn(3) == 0 {
+		keyLen = []int{80, 130}[rnd.Intn(2)] // a path may be longer than a hash
+	}
 	var pool [][]byte
 	path := func() []byte {
 		if len(pool) > 0 && rnd.Intn(100) < 65 {
@@ -570,11 +574,11 @@ func GenRounds(rnd *rand.Rand, persist bool) RHist {
 		}
 		if longKeys {
 			// realistic keys: 64 hex characters, derived from an earlier key from some position on
-			q := bytes.Repeat([]byte("0"), 64)
+			q := bytes.Repeat([]byte("0"), keyLen)
 			if len(pool) > 0 && rnd.Intn(3) > 0 {
 				copy(q, pool[rnd.Intn(len(pool))])
 			}
-			for j := []int{0, 1, 2, 31, 32, 60, 62, 63}[rnd.Intn(8)]; j < 64; j += 1 + rnd.Intn(20) {
+			for j := []int{0, 1, 2, 31, 32, 60, 62, 63, keyLen - 2, keyLen - 1}[rnd.Intn(10)]; j < keyLen; j += 1 + rnd.Intn(20) {
 				q[j] = "0123456789abcdef"[rnd.Intn(16)]
 			}
 			p = q
